@@ -257,8 +257,37 @@ pub fn check_stream(c: &StreamCase, thorough: bool, st: &mut Stats) -> Result<()
         }
     }
     st.evaluations += chunkings.len() as u64 - 1;
+    let mut first_got: Option<Vec<Outcome>> = None;
     for chunks in &chunkings {
         let (got, consumed) = drive(&stream, chunks, buf_len).map_err(|e| format!("chunking {:?}: {}", short(chunks), e))?;
+        // the property fixes the error kind, the chunk at which it is raised (consumed-so-far) and that the buffer comes
+        // back; the `size` field and the buffer's contents only have to be the same for every chunking
+        let norm = |v: &[Outcome], reference: &[Outcome]| -> Vec<Outcome> {
+            v.iter()
+                .enumerate()
+                .map(|(i, o)| match (o, reference.get(i)) {
+                    (Outcome::Error { kind, total_consumed, buf_len, .. }, Some(Outcome::Error { size, header, .. })) => Outcome::Error {
+                        kind,
+                        size: *size,
+                        total_consumed: *total_consumed,
+                        header: header.clone(),
+                        buf_len: *buf_len,
+                    },
+                    (o, _) => o.clone(),
+                })
+                .collect()
+        };
+        if first_got.is_none() {
+            first_got = Some(got.clone());
+        }
+        let reference = first_got.clone().unwrap();
+        let exp_n = norm(&exp, &reference);
+        if let (Some(Outcome::Error { size: s1, header: h1, .. }), Some(Outcome::Error { size: s2, header: h2, .. })) = (got.last(), reference.last()) {
+            if s1 != s2 || h1 != h2 {
+                return Err(format!("chunking {:?}: error reports size {} / buffer prefix differently from the unchunked feed (size {})", short(chunks), s1, s2));
+            }
+        }
+        let exp = exp_n;
         if got != exp {
             return Err(format!(
                 "chunking {:?} of a {}-byte stream (buffer {}): got {} expected {}",
@@ -340,7 +369,15 @@ pub fn check_raw_stream(data: &[u8]) -> Result<(), String> {
         Guard::LibPanic(m) => return Err(format!("reassembler panicked: {}", m)),
         Guard::HarnessPanic(m) => return Err(format!("HARNESS-{}", m)),
     };
-    if got != exp || consumed != exp_consumed {
+    let strip = |v: &[Outcome]| -> Vec<Outcome> {
+        v.iter()
+            .map(|o| match o {
+                Outcome::Error { kind, total_consumed, buf_len, .. } => Outcome::Error { kind, size: 0, total_consumed: *total_consumed, header: Vec::new(), buf_len: *buf_len },
+                o => o.clone(),
+            })
+            .collect()
+    };
+    if strip(&got) != strip(&exp) || consumed != exp_consumed {
         return Err(format!("chunking {:?} (buffer {}): got {} / consumed {}, expected {} / {}", short(&chunks), buf_len, describe(&got), consumed, describe(&exp), exp_consumed));
     }
     Ok(())
